@@ -322,6 +322,8 @@ class Exec:
         if k == "for":
             lo, hi = z3.simplify(self.ev(s[2], new)), z3.simplify(self.ev(s[3], new))
             if not (z3.is_int_value(lo) and z3.is_int_value(hi)):
+                if self.is_accumulate_loop(s):
+                    return self.accumulate_loop(s, new, st, live)
                 return self.array_copy_loop(s, new, st, live)
             lo, hi = lo.as_long(), hi.as_long()
             if hi - lo > self.max_unroll:
@@ -337,6 +339,35 @@ class Exec:
             cur.v.pop(s[1], None)
             return cur
         raise CMiniError(f"statement {k}")
+
+    SUM = z3.Function("SUM", z3.ArraySort(z3.IntSort(), z3.RealSort()), z3.IntSort(), z3.IntSort(), z3.RealSort())
+
+    @staticmethod
+    def is_accumulate_loop(s):
+        var, body = s[1], s[4]
+        return len(body) == 1 and body[0][0] == "assign" and body[0][2] == "+=" and body[0][1][0] == "id" and \
+            body[0][1][1] != var and body[0][3][0] == "idx" and body[0][3][2] == ("id", var)
+
+    def accumulate_loop(self, s, new, st, live):
+        """for (int i = lo; i < hi; i++) acc += A[i];   with symbolic bounds.  Loop contract: invariant
+        acc == acc0 + SUM(A, lo, i) where SUM is the recursively defined partial sum
+            SUM(A, l, h) = 0 if h <= l,   SUM(A, l, h) = SUM(A, l, h - 1) + A[h - 1] if h > l.
+        Establishment (i = lo) and preservation (one unfolding at h = i + 1) are instances of the definition; the exit
+        state is acc == acc0 + SUM(A, lo, hi).  The instances of the definition for the bounds that occur are recorded in
+        self.sum_instances for the caller's obligation."""
+        var, body = s[1], s[4]
+        acc, arrn = body[0][1][1], body[0][3][1]
+        lo, hi = self.ev(s[2], new), self.ev(s[3], new)
+        A = new.a[arrn]
+        cur = new.v[acc]
+        tot = self.SUM(A, lo, hi)
+        if not hasattr(self, "sum_instances"):
+            self.sum_instances = []
+        self.sum_instances += [z3.Implies(hi <= lo, tot == 0),
+                               z3.Implies(hi > lo, tot == self.SUM(A, lo, hi - 1) + z3.Select(A, hi - 1))]
+        val = cur + tot
+        new.v[acc] = val if z3.is_true(z3.simplify(live)) else z3.If(live, val, st.v[acc])
+        return new
 
     def array_copy_loop(self, s, new, st, live):
         """for (int i = 0; i < N; i++) { X[i] = Y[i]; ... }  with symbolic N: element-wise array copies"""
